@@ -211,6 +211,21 @@ func c14Check(t *fw.T, data []byte) {
 				return
 			}
 			t.Count("enum_bodies_checked")
+		case scanner.Annotation:
+			// an annotation is one annotation: a // text stops at the line end, a /* text stops at the first */
+			k := l.begin - 1
+			for k >= 0 && (data[k] == ' ' || data[k] == '\t' || data[k] == '\n' || data[k] == '\r') {
+				k--
+			}
+			if k >= 1 && data[k-1] == '/' && data[k] == '*' && bytes.Contains(val, []byte("*/")) {
+				t.Violation("annotation-runs-on", fmt.Sprintf("annotation lexeme %s contains the terminator of a multi-line annotation; input %s", fw.Short(val, 80), fw.Short(data, 300)))
+				return
+			}
+			if k >= 1 && data[k-1] == '/' && data[k] == '/' && bytes.ContainsAny(val, "\n\r") {
+				t.Violation("annotation-runs-on", fmt.Sprintf("one-line annotation lexeme %s spans a line end; input %s", fw.Short(val, 80), fw.Short(data, 300)))
+				return
+			}
+			t.Count("annotations_checked")
 		case scanner.Text:
 			if lastKeyword != "Description" {
 				if !regexBodyOK(val) {
